@@ -23,7 +23,7 @@ func init() {
 		Title: "A segment is never closed or deleted while in use, and never leaks",
 		Decides: "the lock-free fast path of the segment reference count can only bump a positive count (never resurrect a dormant segment); every other change of the count holds the segment mutex; " +
 			"resources are closed / the directory removed only under that mutex and only on the branch where the count read under the lock is zero; acquire refuses a segment flagged for deletion before reopening it; " +
-			"the segment's index pointer is accessed under the mutex (or through the hold-a-reference accessors); every segment reference obtained by a caller (SelectSegments, CreateSegmentIfNotExist, segments, incRef) is released or handed to an owner on every exit, and loops that pin several segments unwind on a mid-loop failure; DecRef runs the deferred delete only on the 1→0 transition of a flagged segment.",
+			"the segment's index pointer is accessed under the mutex (or through the hold-a-reference accessors); every segment reference obtained by a caller (SelectSegments, CreateSegmentIfNotExist, segments, incRef) is released or handed to an owner on every exit, and loops that pin several segments unwind on a mid-loop failure; DecRef runs the deferred delete only on the 1→0 transition of a flagged segment; a failed (re)open clears segment.index — the \"resources open\" bit — on every failing exit.",
 		NotDecided: "that these invariants compose to safety under every interleaving (a model-checking claim), idle-timer behaviour, liveness of deferred deletes.",
 		Technique:  "SSA value-world pruning on atomic loads/CAS operands; must-lockset; acquire/release pairing with collection ownership",
 		Run:        runC14,
@@ -75,6 +75,28 @@ func runC14(c *core.Ctx) {
 	r := newR(c)
 	funcs := r.P.ModuleFuncs(stPkg)
 	r.Stat("storage_functions", len(funcs))
+
+	// 0. index != nil is the "resources open" bit: a failed (re)open must not leave it set
+	if f := r.fn("c14.open-bit-reset-on-failure", stPkg, "(*segment).initialize"); f != nil {
+		rule := "c14.open-bit-reset-on-failure"
+		q := stPkg + ".segment.index"
+		isNilStore := ssax.StoreTo(q, func(v ssa.Value) bool { return ssax.IsNilConst(v) })
+		ok2 := ssax.SuccessExit(f)
+		failExit := func(in ssa.Instruction) bool { return ssax.IsReturn(in) && !ok2(in) }
+		n := 0
+		for _, in := range ssax.Find(f, ssax.StoreTo(q, func(v ssa.Value) bool { return !ssax.IsNilConst(v) })) {
+			n++
+			construct := fmt.Sprintf("%s: index#%d installed ⇒ cleared again on every failing exit", ssax.FuncName(f), n)
+			if tgt, path, found := (ssax.Search{Target: failExit, Avoid: isNilStore}).From(f, in); found {
+				r.Violate(rule, construct, r.pos(in), fmt.Sprintf("the series index installed at %s is still in segment.index on the failing exit at %s (blocks %s): the segment keeps refCount 0 but looks open, so the next acquire skips initialize and hands out a closed index / missing shards", r.pos(in), r.pos(tgt), blocksStr(path)))
+			} else {
+				r.Hold(rule, construct, r.pos(in), "")
+			}
+		}
+		if n == 0 {
+			r.Undecide(rule, ssax.FuncName(f)+": index installation site", r.fpos(f), "no store of a non-nil value to segment.index found")
+		}
+	}
 
 	// 1. CAS fast path only on a positive count; all other writes under s.mu
 	ruleCAS, ruleW := "c14.cas-positive-only", "c14.count-writes-locked"
